@@ -16,11 +16,16 @@ import (
 	"github.com/99designs/gqlgen/zzsym"
 )
 
-// c12Writer is a flushing ResponseWriter fake that also detects overlapping writes.
+// c12Writer is a flushing ResponseWriter fake that also detects overlapping
+// use. Like net/http's response (a bufio.Writer in front of the connection)
+// Write fills a pending buffer and Flush moves it to the wire, so Write and
+// Flush are conflicting accesses: a Flush outside the lock that orders the
+// writes is a data race and can splice or lose bytes.
 type c12Writer struct {
 	hdr     http.Header
 	status  int
-	body    bytes.Buffer
+	body    bytes.Buffer // the wire
+	pending []byte       // written, not yet flushed
 	flushes int
 	writing bool
 	overlap bool
@@ -38,14 +43,39 @@ func (w *c12Writer) Write(p []byte) (int, error) {
 		w.overlap = true
 	}
 	w.writing = true
+	w.pause()
+	w.pending = append(w.pending, p...)
+	w.writing = false
+	return len(p), nil
+}
+func (w *c12Writer) Flush() {
+	if w.writing {
+		w.overlap = true
+	}
+	w.writing = true
+	pend := w.pending
+	w.pause()
+	w.body.Write(pend)
+	w.pending = w.pending[:0]
+	w.flushes++
+	w.writing = false
+}
+
+// pause is a preemption point for the explorer; natively a slow client: the
+// call blocks for longer than the keep-alive interval, so that ticks land
+// inside writes and flushes.
+func (w *c12Writer) pause() {
 	if w.preempt {
 		zzsym.Preempt()
+		if !zzsym.Symbolic() {
+			time.Sleep(2500 * time.Microsecond)
+		}
 	}
-	n, err := w.body.Write(p)
-	w.writing = false
-	return n, err
 }
-func (w *c12Writer) Flush() { w.flushes++ }
+
+// wire is what the client has received plus what a final flush by net/http
+// would still deliver when the handler returns.
+func (w *c12Writer) wire() string { return w.body.String() + string(w.pending) }
 
 func c12Bool(b bool) *bool { return &b }
 
@@ -108,7 +138,7 @@ func Harness_C12_multipart() {
 		tick("after-" + string(rune('0'+k)))
 	}
 	a.Done(w)
-	parts, closed, ok := c12ParseMultipart(w.body.String(), "-")
+	parts, closed, ok := c12ParseMultipart(w.wire(), "-")
 	zzsym.Assert(ok, "the body is a well-formed multipart/mixed stream")
 	zzsym.Assert(closed, "the closing boundary appears exactly once, last")
 	seenInitial := 0
@@ -228,7 +258,7 @@ func Harness_C12_sse() {
 	cancel()
 	zzsym.Assert(zzsym.Quiesce() == 0, "the keep-alive goroutine ends when the request context is cancelled")
 	zzsym.Assert(!w.overlap, "the response writer is never entered by two goroutines at once")
-	datas, _, ok := c12ParseSSE(w.body.String())
+	datas, _, ok := c12ParseSSE(w.wire())
 	zzsym.Assert(ok, "the stream parses as complete events (pings between events only), ending with one complete")
 	want := ex.n
 	if ex.reject {
